@@ -101,7 +101,7 @@ CLAIMED = {
          "precondition wfir (evaluated by the driver on every generated IR); re-saving gives the "
          "same message; on the real code every generated IR's object dump equals the loaded "
          "IR's, deep_eq holds both ways, the re-saved message is equal and AuxData values decode "
-         "equal; the forward-entry-point corner is the known finding K5. Session 2: second saves of the same IR after in-place edits; the value-level reader is proved to agree with the graph-level loader on every accepted message (C01_link_accepts/_shape); wfir is proved to be exactly the round-trip domain (C01_wfir_iff; IR.version must be the current one: C01_version_rejected); decoded AuxData values survive (C01_aux_values).",
+         "equal; the forward-entry-point corner is the known finding K5. Session 2: second saves of the same IR after in-place edits; the value-level reader is proved to agree with the graph-level loader on every accepted message (C01_link_accepts/_shape); wfir is proved to be exactly the round-trip domain (C01_wfir_iff; IR.version must be the current one: C01_version_rejected); decoded AuxData values survive (C01_aux_values). Session 3: the protobuf layer is no longer a parameter: model W (PbWire: varints, tags, wire types; PbMsg: serializer and parser of every message of the schema, field numbers looked up in the regenerated schema table) with parseMIR (serMIR m) = some m proved for every message in the format's ranges, hence C01_roundtrip_bytes on FILES; tied on every saved file to the real protobuf library in both directions (correspondence:pbwire); in-place edits of expressions / blocks / sections before the second save; path-based save / load entry points.",
          "5 C01"),
  "C02": ("Lean 4 table theorems re-proved against the regenerated schema / enums / version on "
          "every run + writer and reader field lemmas + two-direction differential run",
@@ -110,7 +110,7 @@ CLAIMED = {
          "field-by-field writer statement with one lemma per clause; reader lemmas say every "
          "attribute of an accepted message equals the field; messages parsed by the generated "
          "classes (writer) and built from the descriptors with every declared enum constant "
-         "(reader) are compared with the model under upb and pure Python. Session 2: C02_reader_exact (toMsg v = normMsg m: nothing lost, nothing invented), C02_accepts_iff_closed, writer probe for IR.version.",
+         "(reader) are compared with the model under upb and pure Python. Session 2: C02_reader_exact (toMsg v = normMsg m: nothing lost, nothing invented), C02_accepts_iff_closed, writer probe for IR.version. Session 3: per-message wire-level round trips (parseXW (wX x) = some x for all 18 messages, C01_fno_table: the field numbers written and read are the schema's, ascending and in range); the writer half is compared also when load rejects the saved file; second saves of built and loaded IRs after in-place edits.",
          "5 C02"),
  "C09": ("Lean 4 lemmas (accepted messages have typed, resolved references; UUID/Offset "
          "resolution of the codec) + identity checks and exhaustive reference-fault stream",
@@ -133,7 +133,7 @@ CLAIMED = {
          "size and can be saved and loaded again (Nodup up to the block/own-interval corner); "
          "every file saved from a self-contained IR is accepted; tied by truncations, bit and "
          "byte flips, header variants and all single structural faults, each accepted IR "
-         "checked for coherence on the real objects and saved again, with a per-case timeout. Session 2: the staged loader as a program over the object-graph model for EVERY message, duplicated UUIDs included (Loader, LoaderX: C17_load_coherent, C17_loadX_coherent), children decoded and attached one by one, expression symbols checked per decoded interval object; tied on single faults, duplication pairs and mixed multi-fault messages; C17_accepted_bytes_inv lifts the accepted-IR theorems to any byte string.",
+         "checked for coherence on the real objects and saved again, with a per-case timeout. Session 2: the staged loader as a program over the object-graph model for EVERY message, duplicated UUIDs included (Loader, LoaderX: C17_load_coherent, C17_loadX_coherent), children decoded and attached one by one, expression symbols checked per decoded interval object; tied on single faults, duplication pairs and mixed multi-fault messages; C17_accepted_bytes_inv lifts the accepted-IR theorems to any byte string. Session 3: C17_accepted_file_inv / C17_malformed_wire_rejected / C17_accepts_saved_file over the concrete wire model; the model parser is run on every faulty file (binding on the layer-1 field list, informative on the message layer where protobuf's leniencies on corrupt input are not modelled).",
          "5 C17"),
  "C18": ("Lean 4 proof (deepEq <-> canonical forms equal; reflexive, symmetric, order-"
          "insensitive, one lemma per compared field) + perturbation enumeration",
